@@ -272,6 +272,36 @@ def case_prescribed_mixed(ctx):
     ctx.equal("returned_field_carries_prescribed_values_on_every_field", xf[dof0], np.array([exp[k] for k in sorted(exp)], dtype=object if ctx.sym else float))
 
 
+def case_never_converges(ctx, maxiter):
+    """a residual that never gets below the tolerance: for EVERY iteration limit (also beyond CPython's cached small integers)
+    newtonrhapson raises after exactly maxiter evaluations and returns nothing"""
+    from felupe.tools import newtonrhapson
+
+    tol = ctx.var("tol", 1e-6, 1e-2)
+    calls = {"fun": 0, "jac": 0, "solve": 0}
+
+    def fun(x):
+        calls["fun"] += 1
+        return np.ones(2)
+
+    def jac(x):
+        calls["jac"] += 1
+        return np.eye(2)
+
+    def solve(K, f):
+        calls["solve"] += 1
+        return np.zeros(2)
+
+    raised, res = False, None
+    try:
+        res = newtonrhapson(np.zeros(2), fun=fun, jac=jac, solve=solve, maxiter=maxiter, tol=tol, verbose=False)
+    except ValueError:
+        raised = True
+    ctx.check_concrete("failure_raises_and_returns_nothing", raised and res is None, "raised %s, returned %s" % (raised, None if res is None else getattr(res, "success", res)))
+    ctx.check_concrete("exactly_maxiter_iterations_were_made", calls["solve"] == maxiter and calls["fun"] == maxiter + 1, str(calls))
+    ctx.holds("residual_norm_above_every_admissible_tolerance", [tol < 1] if ctx.sym else [bool(tol < 1)])
+
+
 def cases(tier):
     out = [("partitioned_solve", case_partitioned_solve, {"dof0": list(d0), "max_paths": 32}) for d0 in _partition_sets("sample" if tier == "quick" else "all")]
     for mi in (1, 2, 3):
@@ -279,6 +309,8 @@ def cases(tier):
     out.append(("newton", case_newton, {"maxiter": 2, "nitems": 2, "max_paths": 16}))
     out.append(("newton", case_newton, {"maxiter": 1, "nitems": 3, "max_paths": 16}))
     out.append(("prescribed_values_mixed", case_prescribed_mixed, {"max_paths": 16}))
+    for mi in (1, 16, 256, 257, 300, 1000):
+        out.append(("never_converges", case_never_converges, {"maxiter": mi, "max_paths": 8}))
     out.append(("newton", case_newton, {"maxiter": 2, "linear": True, "max_paths": 16}))
     out.append(("newton", case_newton, {"maxiter": 2, "continuation": True, "max_paths": 16}))
     return out
